@@ -46,7 +46,7 @@ Inductive RootCanon : etree -> Prop :=
     content_mode T (autosar_element T, ed_type e) = Val mode -> ShapeOk mode content ->
     CHILDREN (autosar_element T, ed_type e) mode [] [] content ->
     is_named_in_version T (autosar_element T, ed_type e) ver = Val named ->
-    (named = true -> existsb (is_short T) content = true) ->
+    (named = true -> head_short T content = true) ->
     RootCanon (ENode (ed_name e) (autosar_element T, ed_type e) attrs content cm).
 
 Lemma verify_end_ok st : at_rest st [] -> exists st', verify_end_of_input strict st = Val (Ret tt st') /\ same_core st st'.
